@@ -14,9 +14,9 @@ git apply $OUT/patch.diff || { echo "PATCH DOES NOT APPLY"; exit 2; }
 echo "== demo with patch"; cargo test --offline $DF --test demo_seed 2>&1 | grep -E "^test result|panicked|error|signal|SIG" | head -4
 rm -f tests/demo_seed.rs
 echo "== suite with patch"; cargo test --offline 2>&1 | grep -E "^test result|FAILED" | head -6
-git checkout -q -- . 
+git checkout -q -- . && git clean -fdq
 cd /verif
 git -C /repo apply $OUT/patch.diff || { echo "PATCH DOES NOT APPLY TO /repo"; exit 2; }
 for c in "$@"; do echo "== check $c"; ./check $c 2>&1 | grep -v KNOWN | tail -3 | cut -c1-220; done
-git -C /repo checkout -- .
+git -C /repo checkout -- . && git -C /repo clean -fdq
 git -C /repo status --short | head -3
